@@ -59,6 +59,7 @@ class Gen:
         n = nm[1:]
         if n.startswith('__CPROVER') or n.startswith('nondet_') or n.startswith('vf_'): return False
         if n in LOWERED_COMPLEX: return False
+        if n in ('copysign',) and False: return False
         if n in s.ovr: return False
         return not s.m.fn[nm][1]
 
@@ -175,7 +176,7 @@ class Gen:
     def binop(s, op, t, a, b, flags):
         rt = s.resolve(t)
         if isinstance(rt, TFloat):
-            if s.uf: return s.ufcall(op, a, b)
+            if s.uf == 'all' or (s.uf == 'muldiv' and op in ('fmul', 'fdiv')): return s.ufcall(op, a, b)
             return '(%s %s %s)' % (a, BIN[op], b)
         c = s.ct(rt)
         if rt.n < 32 and rt.n != 1:
@@ -367,7 +368,7 @@ static void vf_move_%(k)s(%(T)s* d, %(T)s* s, u64 n) { memmove(d, s, n * sizeof(
                     a = V(I.a, I.ty); bb = V(I.b, I.ty); define(I, 'fmod(%s, %s)' % (a, bb), True)
                 elif op == 'fneg':
                     a = V(I.a, I.ty)
-                    define(I, s.ufcall('fneg', a) if s.uf else '(-%s)' % a, True)
+                    define(I, s.ufcall('fneg', a) if s.uf == 'all' else '(-%s)' % a, True)
                 elif op == 'icmp':
                     a = V(I.a, I.ty); bb = V(I.b, I.ty); define(I, s.icmp(I.cc, I.ty, a, bb), True)
                 elif op == 'fcmp':
@@ -473,10 +474,11 @@ static void vf_move_%(k)s(%(T)s* d, %(T)s* s, u64 n) { memmove(d, s, n * sizeof(
                 return '%s(%s, %s, %s);' % (base, args[0], args[1] if base != 'memset' else '(int)' + args[1], args[2])
             if base in MATH_INTRINSICS:
                 cf = {'minnum': 'fmin', 'maxnum': 'fmax'}.get(base, base)
-                if s.uf and base in ('fabs', 'sqrt'): return (s.ufcall(base, *args),)
+                if (s.uf == 'all' and base in ('fabs', 'sqrt')) or (s.uf == 'muldiv' and base == 'sqrt'): return (s.ufcall(base, *args),)
                 return ('%s(%s)' % (cf, ', '.join(args)),)
             if base == 'fmuladd' or base == 'fma':
-                if s.uf: return (s.ufcall('fadd', s.ufcall('fmul', args[0], args[1]), args[2]),)
+                if s.uf == 'all': return (s.ufcall('fadd', s.ufcall('fmul', args[0], args[1]), args[2]),)
+                if s.uf == 'muldiv': return ('(%s + %s)' % (s.ufcall('fmul', args[0], args[1]), args[2]),)
                 return ('(%s * %s + %s)' % tuple(args),)
             if base == 'va_start': return 'va_start(*(va_list*)%s, %s);' % (args[0], last_named)
             if base == 'va_end': return 'va_end(*(va_list*)%s);' % args[0]
@@ -516,6 +518,8 @@ static void vf_move_%(k)s(%(T)s* d, %(T)s* s, u64 n) { memmove(d, s, n * sizeof(
             elif callee == '@calloc': e = 'vf_calloc_%s((%s * %s) / sizeof(%s))' % (k, args[0], args[1], T_)
             else: e = 'vf_realloc_%s((%s*)%s, %s / sizeof(%s))' % (k, T_, args[0], args[1], T_)
             return '%s(%s)%s;' % (asg, rc, e)
+        if callee in ('@sqrt', '@fabs') and s.uf and not (callee == '@fabs' and s.uf == 'muldiv'):
+            return (s.ufcall(callee[1:], *args),)
         if callee and s.is_header_fn(callee):
             cexpr = cname(callee)
             call = '%s(%s)' % (cexpr, ', '.join('(void*)' + a if isinstance(s.resolve(t), TPtr) else a for t, a in zip(atys, args)))
@@ -610,7 +614,7 @@ static void vf_move_%(k)s(%(T)s* d, %(T)s* s, u64 n) { memmove(d, s, n * sizeof(
 
 if __name__ == '__main__':
     a = sys.argv[1:]
-    uf = '--uf' in a
+    uf = 'all' if '--uf' in a else ('muldiv' if '--uf-muldiv' in a else False)
     ovr = []
     if '--ovr' in a: ovr = a[a.index('--ovr') + 1].split(',')
     g = Gen(Module(open(a[0]).read()), uf=uf, ovr=ovr)
